@@ -217,6 +217,17 @@ let cmd_c13init toks =
   | [a; c] -> let o s = if s = "none" then None else Some (fl_of_string s) in hx (initial_value fl (o a) (o c))
   | _ -> raise (Parse "c13init")
 
+(* ---- C19: split <kind> <vmode> <noise> <V> <x list> <perfect idx list> <binomial idx list> <stream> ---- *)
+let cmd_split toks =
+  let (kind, r) = pop toks in let (vmode, r) = pop_int r in let (noise, r) = pop_fl r in let (v, r) = pop_fl r in
+  let (x, r) = pop_flist r in let (perfect, r) = pop_list pop_nat r in let (binom, r) = pop_list pop_nat r in
+  let (u, _) = pop_stream r in
+  let d = (match kind with
+    | "perfectbinomial" -> partition_perfect_binomial fl x v u O
+    | "general" -> partition_general fl perfect binom noise x v u O
+    | _ -> partition_lineage fl (nat_of_int vmode) perfect binom noise x v u O) in
+  String.concat " " (List.map hx d.d_state @ ["|"] @ List.map hx d.e_state @ ["|"; hx d.d_vol; hx d.e_vol; string_of_int (int_of_nat d.d_pos)])
+
 let () =
   try
     while true do
@@ -239,6 +250,7 @@ let () =
           | "c12kv" -> cmd_c12kv toks
           | "c13rules" -> cmd_c13rules toks
           | "c13init" -> cmd_c13init toks
+          | "split" -> cmd_split toks
           | "translate" -> cmd_translate toks
           | "iface" -> cmd_iface toks
           | _ -> "ERR unknown command " ^ cmd)
